@@ -49,6 +49,9 @@ SetSeq(S) == IF S = {} THEN <<>> ELSE LET x == CHOOSE y \in S : TRUE IN <<x>> \o
 (* its own and with one other rewrite, not in every composition (what it breaks is a recorded finding, and it     *)
 (* must not hide what the other compositions show)                                                               *)
 C13Cases == {SetSeq(s) : s \in SUBSET Rewrites} \cup {<<"cmtmid">>} \cup {<<"cmtmid", f>> : f \in {"pfx", "ws", "attr"}}
+            (* the layout's line ends written as CR LF or as bare CR; prefixes that only attributes use declared on the root *)
+            \cup UNION {{<<le>>, <<le, "ws">>, <<le, "pad">>, <<le, "ws", "pad">>, <<le, "ws", "pad", "cmt", "decl">>} : le \in {"crlf", "cr"}}
+            \cup {<<"nsup">>, <<"nsup", "pfx">>, <<"nsup", "attr">>}
 
 (* C10: every text-valued parameter x every string of up to K1 character classes *)
 Params == {"persist", "persist-id", "cancel-persist-id", "log", "log-after-failed-write", "instance", "xpath", "xpath-get", "url-edit", "url-delete", "url-host",
